@@ -17,6 +17,7 @@ import (
 	"errors"
 	"fmt"
 	"math/rand/v2"
+	"os"
 	"sort"
 	"strings"
 	"sync"
@@ -1757,6 +1758,147 @@ func c11SystematicTransportCancel() []c11Input {
 	return out
 }
 
+// c11FileClient: the store's client is a REAL setec.FileClient (static answers = the file) and the
+// store starts from a persistent cache written when the file held OTHER versions.  Every Refresh /
+// ticker poll must ask the client and converge to the file's versions in handles and cache.  The
+// client cannot be wrapped (the store recognises *FileClient by type), so the requests are not
+// observed: the timeline carries the requests the model expects (one per name, answered by the
+// file) and the kernel judges Refresh results, Cache.Write documents and handle values.
+// in.Vers = the file's versions, in.Active = the cached versions (0 = not cached).
+func c11FileClient(in c11Input) (rec Record) {
+	r := &c11Run{in: in, svc: c11NewSvc(), cache: &c11Cache{}, handles: map[string]setec.Secret{}, altIdx: -1}
+	r.tick = &c11Ticker{ch: make(chan time.Time), done: make(chan struct{}, 1)}
+	const now0 = int64(1700000000)
+	clock := func() time.Time { return time.Unix(now0, 0) }
+	val := func(n string, v int) []byte {
+		b := []byte(fmt.Sprintf("%s@%d/file", n, v))
+		if _, ok := r.svc.tok[string(b)]; !ok {
+			r.svc.tok[string(b)] = uint64(len(r.svc.tok) + 1)
+		}
+		return b
+	}
+	fail := func(what string) Record {
+		return Record{Kind: "fc", Input: in, Direct: &DirectVerdict{OK: false, What: what}}
+	}
+	dir, err := os.MkdirTemp("", "c11fc")
+	if err != nil {
+		return fail(err.Error())
+	}
+	defer os.RemoveAll(dir)
+	names := append([]string(nil), in.Names...)
+	sort.Strings(names)
+	idx := map[string]int{}
+	for i, n := range in.Names {
+		idx[n] = i
+	}
+	file, cdoc := map[string]any{}, map[string]any{}
+	var sv0, cents, nameT []string
+	have := map[string]int{}
+	for _, n := range names {
+		fv, cv := in.Vers[idx[n]], in.Active[idx[n]]
+		file[n] = map[string]any{"secret": map[string]any{"Value": val(n, fv), "Version": fv}}
+		sv0 = append(sv0, fmt.Sprintf("(%s,(%d,%d))", coqBytes([]byte(n)), fv, r.svc.token(val(n, fv))))
+		nameT = append(nameT, coqBytes([]byte(n)))
+		have[n] = fv
+		if cv > 0 {
+			cdoc[n] = map[string]any{"secret": map[string]any{"Value": val(n, cv), "Version": cv}, "lastAccess": fmt.Sprint(now0 - 100)}
+			cents = append(cents, fmt.Sprintf("(%s,(%d,%d,%d))", coqBytes([]byte(n)), cv, r.svc.token(val(n, cv)), now0-100))
+			have[n] = cv
+		}
+	}
+	fb, _ := json.Marshal(file)
+	path := dir + "/secrets.json"
+	if err := os.WriteFile(path, fb, 0o600); err != nil {
+		return fail(err.Error())
+	}
+	fc, err := setec.NewFileClient(path)
+	if err != nil {
+		return fail("NewFileClient: " + err.Error())
+	}
+	r.cache.data, _ = json.Marshal(cdoc)
+	st, err := newStoreReleased(context.Background(), setec.StoreConfig{
+		Client: fc, Secrets: append([]string(nil), in.Names...), Cache: r.cache, PollTicker: r.tick, TimeNow: clock, Logf: func(string, ...any) {},
+	})
+	if err != nil {
+		return fail("NewStore failed although the file holds every declared secret: " + err.Error())
+	}
+	r.st = st
+	initOut := r.writes()
+	poll := func(tick bool) {
+		r.emit(true, fmt.Sprintf("R %d", now0*1e9), nil)
+		var outs []string
+		if tick {
+			select {
+			case r.tick.ch <- time.Now():
+			case <-time.After(5 * time.Second):
+				r.direct = c11NoTick
+				return
+			}
+			select {
+			case <-r.tick.done:
+			case <-time.After(5 * time.Second):
+				r.direct = "a ticker-driven Refresh did not complete"
+				return
+			}
+		} else {
+			ch := make(chan error, 1)
+			go func() { ch <- st.Refresh(context.Background()) }()
+			select {
+			case err := <-ch:
+				outs = append(outs, c11Class(err))
+			case <-time.After(5 * time.Second):
+				r.direct = "Refresh did not return"
+				return
+			}
+		}
+		for _, n := range names { // the requests this poll must have made, answered by the file
+			fv := in.Vers[idx[n]]
+			resp := "rn"
+			if have[n] != fv {
+				resp = fmt.Sprintf("(rv %d %d)", fv, r.svc.token(val(n, fv)))
+			}
+			r.emit(true, fmt.Sprintf("Q %s false false", coqBytes([]byte(n))), []string{fmt.Sprintf("oq (Some %d) %s", have[n], resp)})
+			have[n] = fv
+		}
+		r.emit(!tick, "E_", append(r.writes(), outs...))
+	}
+	reads := func() {
+		for _, n := range names {
+			h := st.Secret(n)
+			r.emit(true, "H "+coqBytes([]byte(n)), []string{"oh " + coqOptBool(true, h != nil)})
+			if h != nil {
+				r.emit(true, fmt.Sprintf("G %s %d", coqBytes([]byte(n)), now0), []string{fmt.Sprintf("ov (Some %d)", r.svc.token(h.Get()))})
+			}
+		}
+	}
+	for _, k := range in.Ops {
+		if r.direct != "" {
+			break
+		}
+		switch k.K {
+		case "refresh":
+			poll(false)
+		case "tick":
+			poll(true)
+		case "read":
+			reads()
+		}
+	}
+	r.closeAndFlush(5 * time.Second)
+	cacheT := "(Some " + coqList(cents) + ")"
+	rec = Record{Kind: "fc", Input: in, Obs: r.obs,
+		Coq: fmt.Sprintf("Scn %s %s %s %d false 0 %s %s", coqList(nameT), cacheT, coqList(sv0), now0, coqList(initOut), coqList(r.steps))}
+	kb, _ := json.Marshal(in)
+	rec.Key = string(kb)
+	rec.Nontrivial = true
+	rec.Tags = []string{"file-client"}
+	if r.direct != "" {
+		rec.Direct = &DirectVerdict{OK: false, What: r.direct}
+	}
+	c11Alt = ""
+	return rec
+}
+
 // c11Bubble runs one scenario in a synctest bubble and turns a synctest deadlock ("all goroutines
 // in bubble are blocked" / "main bubble goroutine has exited but blocked goroutines remain") into
 // data: the panic is recovered (the bubble's goroutines stay blocked and are abandoned), the text is
@@ -1796,7 +1938,9 @@ func runC11(o Opts) {
 				}
 				return
 			}
-			if in.Kind == "cw" { // real goroutines, real time (a goroutine blocked on the store's mutex is not "durably blocked" for synctest)
+			if in.Kind == "fc" { // a real FileClient, real time
+				rec = c11FileClient(in)
+			} else if in.Kind == "cw" { // real goroutines, real time (a goroutine blocked on the store's mutex is not "durably blocked" for synctest)
 				rec = c11CacheWrite(in)
 			} else {
 				dead := c11Bubble(t, func(t *testing.T) {
@@ -1849,6 +1993,33 @@ func runC11(o Opts) {
 		}
 		for _, in := range c11SystematicTransportCancel() {
 			runOne(in, "")
+		}
+		// a FileClient behind a cache written when the file held other versions
+		for k := 1; k <= 4; k++ {
+			for pat := 0; pat < 4; pat++ {
+				in := c11Input{Kind: "fc"}
+				for i := 0; i < k; i++ {
+					in.Names = append(in.Names, fmt.Sprintf("f%d", i))
+					fv := 2 + (i+pat)%3
+					cv := fv - 1 // cached: an older version
+					switch {
+					case pat == 1 && i == k-1:
+						cv = fv // one name already current
+					case pat == 2 && i == 0:
+						cv = 0 // one name not cached at all
+					case pat == 3:
+						cv = fv + 1 // the file was rolled BACK: the cache holds a newer number
+					}
+					in.Vers = append(in.Vers, fv)
+					in.Active = append(in.Active, cv)
+				}
+				first := "refresh"
+				if pat%2 == 1 {
+					first = "tick"
+				}
+				in.Ops = []c11Op{{K: first}, {K: "read"}, {K: "refresh"}, {K: "tick"}, {K: "read"}}
+				runOne(in, "")
+			}
 		}
 		n := 300
 		nCad := 48
